@@ -175,7 +175,8 @@ def model_runs(ctx, box):
         ctx.model("MC_LineReaders", "AsShipped_LineReaders.cfg", workers=4, expect_violation="DimsConsistent", count=False)
         if not ctx.quick:
             # double edits and random token strings: random behaviours, Termination checked on each
-            ctx.model("MC_NexusReaderCtl", "Sim_NexusReaderCtl.cfg", workers=8, simulate="num=2500", extra=("-depth", "170", "-seed", str(ctx.seed + 20)))
+            ctx.model("MC_NexusReaderCtl", "Sim_NexusReaderCtl.cfg", workers=8, simulate="num=1000", extra=("-depth", "170", "-seed", str(ctx.seed + 20)))
+            ctx.model("MC_NexusReaderCtl", "Sim_NexusReaderCtl_strings.cfg", workers=8, simulate="num=3000", extra=("-depth", "120", "-seed", str(ctx.seed + 22)))
             ctx.model("MC_NewickGrammar", "Sim_NewickGrammar.cfg", workers=8, simulate="num=4000", extra=("-depth", "120", "-seed", str(ctx.seed + 21)))
     except BaseException as ex:      # re-raised by the main thread
         box["error"] = ex
